@@ -135,12 +135,12 @@ Lemma enc_trun_box r bytes :
 Proof.
   intros Hw H. unfold enc_trun in H. destruct (doff_unset r); [discriminate|]. injection H as <-.
   unfold box. rewrite trun_body_len; [reflexivity|].
-  unfold trun_wf in Hw. rewrite !andb_true_iff in Hw. destruct Hw as [[[_ Hl] _] _]. apply N.ltb_lt in Hl. exact Hl.
+  unfold trun_wf, trun_fields_wf in Hw. rewrite !andb_true_iff in Hw. destruct Hw as [[[_ Hl] _] _]. apply N.ltb_lt in Hl. exact Hl.
 Qed.
 
 Lemma trun_size_body r : trun_wf r = true -> 8 + lenN (enc_trun_body r) = trun_size r.
 Proof.
-  intros Hw. apply trun_body_len. unfold trun_wf in Hw. rewrite !andb_true_iff in Hw.
+  intros Hw. apply trun_body_len. unfold trun_wf, trun_fields_wf in Hw. rewrite !andb_true_iff in Hw.
   destruct Hw as [[[_ Hl] _] _]. apply N.ltb_lt in Hl. exact Hl.
 Qed.
 
@@ -492,6 +492,64 @@ Proof.
   - destruct (fr_trafs fe) as [|t ts]; cbn [map rbind]; [reflexivity|]. rewrite G. reflexivity.
 Qed.
 
+(* ------------------------------------------------------------------ DecodeTrun's count guard holds for what Encode writes *)
+(* widths only: what the caller controls (field values within their wire widths, no extra children) *)
+Definition traf_width_wf (t : traf) : bool :=
+  tfhd_wf (tf_hd t) && tfdt_wf (tf_dt t) && forallb trun_fields_wf (tf_truns t) && (tf_extra t =? 0).
+Definition frag_width_wf (fe : frag) : bool :=
+  forallb traf_width_wf (fr_trafs fe) && (fr_moofx fe =? 0) && (moof_size fe <? 4294967296).
+
+Definition trafs_bare (ts : list traf) : Prop := Forall (fun t => Forall (fun r => bare_ok r = true) (tf_truns t)) ts.
+
+Lemma present_bare r : all_present r = true -> has_cto r = true /\ bare_ok r = true.
+Proof.
+  unfold all_present, bare_ok. rewrite !andb_true_iff. intros [[[_ _] _] H]. split; [exact H|]. rewrite H. apply orb_true_r.
+Qed.
+
+Lemma frag_codec_of_width fe : frag_width_wf fe = true -> trafs_bare (fr_trafs fe) -> frag_codec_wf fe = true.
+Proof.
+  unfold frag_width_wf, frag_codec_wf, trafs_bare. rewrite !andb_true_iff. intros [[Hw Hx] Hs] Hb.
+  split; [split|]; try assumption. apply forallb_forall. intros t Ht.
+  rewrite forallb_forall in Hw. specialize (Hw t Ht). rewrite Forall_forall in Hb. specialize (Hb t Ht).
+  unfold traf_width_wf in Hw. unfold traf_wf. rewrite !andb_true_iff in *. destruct Hw as [[[H1 H2] H3] H4].
+  repeat split; try assumption. apply forallb_forall. intros r Hr. rewrite forallb_forall in H3. rewrite Forall_forall in Hb.
+  apply trun_wf_of_bare; [apply H3|apply Hb]; exact Hr.
+Qed.
+
+Lemma set_offsets_bare fr : trafs_bare (fr_trafs fr) -> trafs_bare (fr_trafs (set_offsets fr)).
+Proof.
+  intros H. unfold set_offsets. destruct (negb _ && _); [exact H|]. cbn [fr_with fr_trafs].
+  unfold trafs_bare in *. apply Forall_forall. intros t Ht. apply in_map_iff in Ht. destruct Ht as (t0 & <- & Ht0).
+  cbn [tf_truns]. rewrite Forall_forall in H. specialize (H t0 Ht0). apply Forall_forall. intros r Hr.
+  apply in_map_iff in Hr. destruct Hr as (r0 & <- & Hr0). rewrite Forall_forall in H. exact (H r0 Hr0).
+Qed.
+
+(* every trun of a fragment whose truns carry all four fields (as CreateTrun makes them) passes the guard after
+   Fragment.Encode, with or without optimisation, whatever the number of samples (fix 6c7a902) *)
+Lemma encode_frag_bare opt fr fe :
+  Forall (fun t => Forall (fun r => all_present r = true) (tf_truns t)) (fr_trafs fr) ->
+  encode_frag opt fr = Ok fe -> trafs_bare (fr_trafs fe).
+Proof.
+  intros Hp H. unfold encode_frag in H.
+  destruct (if opt then optimize_first fr else Ok fr) as [fr1| | |] eqn:E1; try discriminate. cbn [rbind] in H.
+  assert (H0 : trafs_bare (fr_trafs fr)).
+  { eapply Forall_impl; [|exact Hp]. cbn beta. intros t Ht. eapply Forall_impl; [|exact Ht]. intros r Hr. apply (present_bare r Hr). }
+  assert (H1 : trafs_bare (fr_trafs fr1)).
+  { destruct opt; [|injection E1 as <-; exact H0]. unfold optimize_first in E1.
+    destruct (fr_trafs fr) as [|t ts] eqn:Et; [injection E1 as <-; rewrite Et; constructor|].
+    destruct (tf_truns t) as [|r rs] eqn:Er; [injection E1 as <-; rewrite Et; exact H0|].
+    destruct (optimize (tf_hd t) r) as [[h' r']| | |] eqn:Eo; try discriminate. cbn [rbind] in E1. injection E1 as <-.
+    cbn [fr_with fr_trafs]. inversion H0 as [|? ? Ht0 Hts]; subst. inversion Hp as [|? ? Hpt _]; subst.
+    rewrite Er in Ht0, Hpt. inversion Ht0 as [|? ? Hb Hbs]; subst. inversion Hpt as [|? ? Hpr _]; subst.
+    constructor; [|exact Hts]. cbn [tf_truns]. constructor; [|exact Hbs].
+    destruct (present_bare r Hpr) as [Hc _]. exact (optimize_bare _ _ _ _ Hc Hb Eo). }
+  pose proof (set_offsets_bare fr1 H1) as H2.
+  destruct (fr_trafs (set_offsets fr1)) as [|t ts] eqn:Et; try discriminate.
+  destruct (existsb doff_unset (tf_truns t)); try discriminate.
+  destruct (existsb doff_unset (all_truns ts)); try discriminate.
+  injection H as <-. cbn [fr_with fr_trafs]. exact H2.
+Qed.
+
 (* ------------------------------------------------------------------ end to end on the bytes of one fragment *)
 Lemma encode_frag_touched opt fr fe : encode_frag opt fr = Ok fe ->
   md_large (fr_mdat fe) || (md_payload (fr_mdat fe) <=? 4294967287) = true.
@@ -509,7 +567,8 @@ Qed.
 
 (* C05_roundtrip on the real byte string: a multi-track fragment without boxes before the moof and without extra
    children in moof and trafs, any history of AddFullSampleToTrack; Fragment.Encode writes `bytes`; decoding the
-   bytes at any position gives a moof and an mdat whose view reads back exactly the added samples *)
+   bytes at any position gives a moof and an mdat whose view reads back exactly the added samples.  No bound on the
+   number of samples per trun: DecodeTrun's count guard is PROVED to accept every trun Encode writes here. *)
 Lemma roundtrip_bytes tracks post ops cs fr opt fe seq bytes pos0 tx :
   NoDup tracks -> N.of_nat (length ops) < 4294967296 -> forallb is_full_to ops = true ->
   Forall (fun o => sized_f (op_full o)) ops ->
@@ -518,15 +577,17 @@ Lemma roundtrip_bytes tracks post ops cs fr opt fe seq bytes pos0 tx :
   moof_size fe + md_header_size (fr_mdat fe) + lenN (md_data (fr_mdat fr)) < 2147483648 ->
   pos0 < 4611686018427387904 ->
   consistent (added_fulls tracks (tx_track tx) ops) ->
-  frag_codec_wf fe = true -> seq < 4294967296 ->
+  frag_width_wf fe = true -> seq < 4294967296 ->
   enc_fragment seq fe = Ok bytes ->
   exists m payload d,
     dec_top (length bytes) bytes = Ok [BMoof (moof_size fe) m; BMdat (md_header_size (fr_mdat fe)) payload] /\
     bytes_view m payload pos0 (moof_size fe) (md_header_size (fr_mdat fe)) = Some d /\
     get_full_samples d (Some tx) = Ok (added_fulls tracks (tx_track tx) ops).
 Proof.
-  intros Hnd Hlen Hfull Hsz Hrun Henc Hg Hpos Hcons Hw Hq Hb.
+  intros Hnd Hlen Hfull Hsz Hrun Henc Hg Hpos Hcons Hww Hq Hb.
   pose proof (ghost_ginv tracks ops cs _ fr Hnd Hlen Hfull (create_multi_extras_ginv _ _ _ _ _ Hnd) Hrun) as Hi.
+  assert (Hw : frag_codec_wf fe = true).
+  { apply frag_codec_of_width; [exact Hww|]. eapply encode_frag_bare; [|exact Henc]. eapply ginv_present. exact Hi. }
   destruct Hi as (_ & _ & _ & _ & Hdat & Hpar & Hlaz).
   destruct (encode_frag_mdat opt fr fe Henc) as (El & Ed & Ep).
   destruct (encode_frag_pre_post opt fr fe Henc) as (Epre & _).
@@ -545,13 +606,23 @@ Proof.
   rewrite Hpre0. lia.
 Qed.
 
-(* ------------------------------------------------------------------ a refutation: optimisation can write a trun that DecodeTrun refuses *)
-(* 1025 samples with equal duration, size and flags and zero composition offsets: OptimizeTfhdTrun removes all four
-   per-sample fields, and DecodeTrun / DecodeTrunSR refuse a trun with more than 1024 samples and no per-sample field
-   ("sampleCount is big but no sample data present").  Reproduced on the real code: known finding C05-F7. *)
+(* ------------------------------------------------------------------ the optimiser and DecodeTrun's guard (C05-F7) *)
+(* after fix 6c7a902: whatever OptimizeTfhdTrun makes of a trun that carries all four per-sample fields, DecodeTrun /
+   DecodeTrunSR decode its bytes, for ANY number of samples (fields within their wire widths) *)
+Lemma optimized_trun_decodes tf tr tf' tr' d :
+  all_present tr = true -> optimize tf tr = Ok (tf', tr') -> trun_fields_wf (tr_with_doff tr' d) = true ->
+  dec_trun (trun_size (tr_with_doff tr' d)) (enc_trun_body (tr_with_doff tr' d)) = Ok (wire_trun (tr_with_doff tr' d)).
+Proof.
+  intros Hp Ho Hw. apply dec_enc_trun. apply trun_wf_of_bare; [exact Hw|].
+  destruct (present_bare tr Hp) as [Hc Hb]. exact (optimize_bare _ _ _ _ Hc Hb Ho).
+Qed.
+
+(* before the fix (optimize_f7): 1025 samples with equal duration, size and flags and zero composition offsets lost all
+   four per-sample fields, and DecodeTrun / DecodeTrunSR refuse a trun with more than 1024 samples and no per-sample
+   field ("sampleCount is big but no sample data present").  Reproduced on the pinned code: finding C05-F7 (fixed). *)
 Lemma big_uniform_refuted : exists tf tr tf' tr',
   all_present tr = true /\ forallb sample_wf (tr_samples tr) = true /\
-  optimize tf tr = Ok (tf', tr') /\
+  optimize_f7 tf tr = Ok (tf', tr') /\
   dec_trun (trun_size (tr_with_doff tr' 100)) (enc_trun_body (tr_with_doff tr' 100)) = Err.
 Proof.
   exists (create_tfhd 1), (mkTrun 1 3841 0 0 (repeat (mkSample 16842752 10 1 0) 1025) 0).
